@@ -542,6 +542,13 @@ def alphabet(s, tree, M):
 # ---------------------------------------------------------------------------------------------
 # applying one operation: model prediction, real call, transition oracles
 
+# class keys name the mechanism: thin wrappers share the key of the method they delegate to
+# (removeMass = addMass(-m), addMasses loops addMass, setMasses = clear + setMass, setMassFrac =
+# setMassFracs); an exception escaping a composite-level setter is keyed by "composite" (the code
+# is ArmiObject's, shared by block, assembly and core); refusals of the three mass-fraction
+# setters share one key (all refuse through setMassFracs' zero-density test).
+KEYNAME = {"removeMass": "addMass", "addMasses": "addMass", "setMasses": "setMass", "setMassFracs": "setMassFrac"}
+MASSFRAC_OPS = ("setMassFrac", "setMassFracs", "adjustMassFrac")
 CONTRACT = {"ValueError"}  # documented refusals: nuclide held by no child; zero density in setMassFracs
 MASS_OPS = ("addMass", "removeMass", "setMass", "addMasses", "setMasses")
 
@@ -702,6 +709,9 @@ def step(s, M, pre, op, check, case):
     Tpre = M.at(pre, path)
     tag = lvl_tag(Tpre)
     ltag = lvl_tag(Tpre, sym=False)
+    ctag = "component" if Tpre["lvl"] == "component" else "composite"
+    kname = KEYNAME.get(name, name)
+    rname = "massfrac" if name in MASSFRAC_OPS else kname
 
     def bad(key, msg):
         vs.append(core.viol("c02/" + key, "%s after %s: %s" % (_where(s, path), _opstr(op, a), msg), case))
@@ -723,14 +733,14 @@ def step(s, M, pre, op, check, case):
         return out, post, vs
     if out != "ok":
         if type(exc).__name__ not in CONTRACT:
-            bad("exception-%s-%s-%s" % (name, ltag, type(exc).__name__), "unexpected %r" % (exc,))
+            bad("exception-%s-%s-%s" % (kname, ctag, type(exc).__name__), "unexpected %r" % (exc,))
         elif want_out == "ok":
-            bad("refusal-unexpected-%s-%s" % (name, ltag), "raised %r although the request is well defined" % (exc,))
+            bad("refusal-unexpected-%s-%s" % (rname, ltag), "raised %r although the request is well defined" % (exc,))
         elif _leafdiff(M, pre, post, ()):
-            bad("refusal-changed-state-%s-%s" % (name, ltag), "refused with %s but densities changed: %s" % (type(exc).__name__, _leafdiff(M, pre, post, ())[:2]))
+            bad("refusal-changed-state-%s-%s" % (rname, ltag), "refused with %s but densities changed: %s" % (type(exc).__name__, _leafdiff(M, pre, post, ())[:2]))
         return out, post, vs
     if want_out != "ok":
-        bad("refusal-missing-%s-%s" % (name, ltag), "accepted, but no child holds the nuclide / the density is zero (documented ValueError)")
+        bad("refusal-missing-%s-%s" % (rname, ltag), "accepted, but no child holds the nuclide / the density is zero (documented ValueError)")
         return out, post, vs
 
     n0 = len(vs)
@@ -740,7 +750,7 @@ def step(s, M, pre, op, check, case):
         if p[: len(path)] != path:
             l0 = M.at(pre, p)
             if l0["nd"] != l["nd"]:
-                bad("frame-%s-%s" % (name, tag), "component %s outside the edited object changed: %s" % (list(p), _dictdiff(l0["nd"], l["nd"])[:2]))
+                bad("frame-%s-%s" % (kname, tag), "component %s outside the edited object changed: %s" % (list(p), _dictdiff(l0["nd"], l["nd"])[:2]))
                 break
     vs += _readback(s, M, obj, op, a, Tpre, Tpost, pre, tag, case)
     if len(vs) == n0:
@@ -748,7 +758,7 @@ def step(s, M, pre, op, check, case):
         # add/remove mass: N + dN cancels, so the comparison is relative to the operands (the previous value)
         d = _leafdiff(M, pred, post, path, scale=pre if name in ("addMass", "removeMass", "addMasses") else None)
         if d:
-            bad("distribution-%s-%s" % (name, tag), "per-component densities differ from the documented de-homogenisation: %s" % d[:3])
+            bad("distribution-%s-%s" % (kname, tag), "per-component densities differ from the documented de-homogenisation: %s" % d[:3])
         if name == "scale" and Tpre["lvl"] == "component" and Tpre.get("det") is not None:
             pass
     return out, post, vs
@@ -795,6 +805,7 @@ def _readback(s, M, obj, op, a, Tpre, Tpost, pre, tag, case):
         vs.append(core.viol("c02/" + key, "%s after %s: %s" % (_where(s, path), _opstr(op, a), msg), case))
 
     preN = M.Ns(Tpre)
+    kname = KEYNAME.get(name, name)
 
     def others_unchanged(listed):
         got = obj.getNumberDensities()
@@ -802,7 +813,7 @@ def _readback(s, M, obj, op, a, Tpre, Tpost, pre, tag, case):
             if n in listed:
                 continue
             if not close(got.get(n, 0.0), v):
-                bad("others-changed-%s-%s" % (name, tag), "nuclide %s was not addressed but its density went %r -> %r" % (n, v, got.get(n, 0.0)))
+                bad("others-changed-%s-%s" % (kname, tag), "nuclide %s was not addressed but its density went %r -> %r" % (n, v, got.get(n, 0.0)))
                 return
 
     if name == "setND":
@@ -838,7 +849,7 @@ def _readback(s, M, obj, op, a, Tpre, Tpost, pre, tag, case):
         want = a["m"] if name == "setMass" else (m0 + a["m"] if name == "addMass" else m0 - a["m"])
         got = obj.getMass(a["n"])
         if not close(got, want, scale=max(abs(m0), abs(a["m"]))):
-            bad("readback-%s-%s" % (name, tag), "getMass(%s) reads %r g, expected %r g (before: %r g, argument %r g)" % (a["n"], got, want, m0, a["m"]))
+            bad("readback-%s-%s" % (kname, tag), "getMass(%s) reads %r g, expected %r g (before: %r g, argument %r g)" % (a["n"], got, want, m0, a["m"]))
         others_unchanged({a["n"]})
     elif name in ("addMasses", "setMasses"):
         for n, m in a["d"].items():
@@ -846,7 +857,7 @@ def _readback(s, M, obj, op, a, Tpre, Tpost, pre, tag, case):
             want = m if name == "setMasses" else m0 + m
             got = obj.getMass(n)
             if not close(got, want, scale=max(abs(m0), abs(m))):
-                bad("readback-%s-%s" % (name, tag), "getMass(%s) reads %r g, expected %r g" % (n, got, want))
+                bad("readback-%s-%s" % (kname, tag), "getMass(%s) reads %r g, expected %r g" % (n, got, want))
                 break
         if name == "addMasses":
             others_unchanged(set(a["d"]))
@@ -883,14 +894,14 @@ def _readback(s, M, obj, op, a, Tpre, Tpost, pre, tag, case):
         for n, v in listed.items():
             g = obj.getMassFrac(n)
             if not close(g, v) or not close(got.get(n, 0.0), v):
-                bad("readback-%s-%s" % (name, tag), "getMassFrac(%s) reads %r (getMassFracs: %r), requested %r" % (n, g, got.get(n, 0.0), v))
+                bad("readback-%s-%s" % (kname, tag), "getMassFrac(%s) reads %r (getMassFracs: %r), requested %r" % (n, g, got.get(n, 0.0), v))
                 break
         ratios = [(n, got.get(n, 0.0) / v) for n, v in rest.items() if v > 0]
         if ratios and not all(close(r, ratios[0][1]) for _n, r in ratios):
-            bad("massfrac-proportions-%s-%s" % (name, tag), "remaining nuclides did not keep their proportions: new/old ratios %s" % ratios[:4])
+            bad("massfrac-proportions-%s-%s" % (kname, tag), "remaining nuclides did not keep their proportions: new/old ratios %s" % ratios[:4])
         rho = obj.density()
         if not close(rho, rho0):
-            bad("massfrac-density-%s-%s" % (name, tag), "density() went %r -> %r" % (rho0, rho))
+            bad("massfrac-density-%s-%s" % (kname, tag), "density() went %r -> %r" % (rho0, rho))
     elif name == "setHeight":
         h = obj.getHeight()
         if not close(h, Tpre["h"] * a["f"]):
